@@ -6,7 +6,7 @@ CONSTANTS
   Variant = "code"
   T0 = 1
   SeedMode = "plain"
-  MaxNow = 4
+  MaxNow = 5
   MaxCodes = 2
   MaxIssued = 3
   ReqRoles <- ReqRolesSmall
